@@ -720,15 +720,16 @@ def try_replay(prop, function, variant, name, obls, world):
     return locals().get('last')
 
 
-def run_subprocess(doc):
+def run_subprocess(doc, repo=None):
+    """repo: run against the package found under this directory instead of the tree under test"""
     import tempfile
     with tempfile.NamedTemporaryFile('w', suffix='.json', delete=False) as f:
         json.dump(doc, f, default=str)
         path = f.name
     try:
         env = dict(os.environ)
-        if os.environ.get('VERIF_REPO'):    # scratch copy of the repository under test (mutation self-test)
-            env['PYTHONPATH'] = os.environ['VERIF_REPO'] + os.pathsep + env.get('PYTHONPATH', '')
+        if repo or os.environ.get('VERIF_REPO'):    # scratch copy of the repository under test (mutation self-test)
+            env['PYTHONPATH'] = (repo or os.environ['VERIF_REPO']) + os.pathsep + env.get('PYTHONPATH', '')
         p = subprocess.run([sys.executable, '-W', 'ignore', '-m', 'pyvc.concrete', path], cwd=VERIF, capture_output=True,
                            text=True, timeout=120, env=env)
         for line in reversed(p.stdout.strip().splitlines()):
